@@ -145,8 +145,11 @@ class C12(Property):
                 "(* the cache cleaner's wheel, and the delays of the timers it sets for a task that keeps failing *)\n"
                 "Definition cleaner_wheel_slots : Z := %d.\nDefinition cleaner_wheel_interval_ns : Z := %d.\n"
                 "Definition cleaner_retry_schedule_ns : list Z := %s.\n"
+                "(* fix 1b06186: after a Drain of 9 timers whose callbacks all call back into the wheel, the wheel still\n"
+                "   takes a call from another goroutine (Drain delivers off the wheel goroutine) *)\n"
+                "Definition drain_delivers_off_wheel_goroutine : bool := %s.\n"
                 % (k["cache_slots"], k["cache_interval"], k["cleaner_slots"], k["cleaner_interval"],
-                   clist([cz(d) for d in k["cleaner_schedule"]])))
+                   clist([cz(d) for d in k["cleaner_schedule"]]), cbool(bool(k.get("drain_off_loop")))))
         path = os.path.join(vlib.COQ, "gen", "C12Consts.v")
         old = open(path).read() if os.path.exists(path) else None
         if old != text:
